@@ -33,6 +33,17 @@ TRUSTED_BASE = [
 ]
 
 
+def supporting_only(prop, theorems):
+    """theorems classed (lean/theorem_classes.json, from an independent audit) as restated definitions, unfoldings,
+    helper lemmas or copies: kernel-checked, but carrying no weight for the property on their own"""
+    try:
+        cls = json.load(open(os.path.join(LEAN_DIR, "theorem_classes.json")))
+    except (OSError, ValueError):
+        return []
+    names = set(cls.get(prop, []))
+    return sorted(t for t in theorems if t.split(".")[-1] in names)
+
+
 class CheckError(Exception):
     pass
 
@@ -519,6 +530,7 @@ class Ctx:
                     self.prop, " && lake env leanchecker DoviModel.Props.%s" % self.prop if self.tier == "thorough" else ""),
                 "trusted_base": TRUSTED_BASE,
                 "theorems": {k: v for k, v in self.theorems.items()},
+                "theorems_supporting_only": supporting_only(self.prop, self.theorems),
                 "evaluations": self.evaluations,
                 "distinct_nontrivial": len(self.nontrivial),
                 "rule": self.rule,
